@@ -170,8 +170,9 @@ example : ssmValid .one 2 := rfl
 
 /-! ## HistoryBuffer -/
 
-/-- Any sequence of `addElement` (vectors of `state_size` entries), `setHistorySize`, `decrease/increaseHistorySize`,
-    `clear`, `getHistoryBuffer`, moves (continuing with the moved-to object) — of any length: no `pop_back` on an
+/-- Any sequence of `addElement` (vectors of the state size the buffer has at that point), `setHistorySize`,
+    `decrease/increaseHistorySize`, `clear`, `getHistoryBuffer`, move construction (continuing with the moved-to object) and move
+    ASSIGNMENT from / into a buffer of another state size, window and content — of any length: no `pop_back` on an
     empty deque, no column of `getHistoryBuffer()` assigned a vector of another size. -/
 theorem safe_history (S : Nat) (ops : List HOp) (h : histValid S ops) : (histCase S ops).Safe := by
   unfold histCase
@@ -188,6 +189,16 @@ theorem history_bounded (S : Nat) (ops : List HOp) (h : ∀ op ∈ ops, op ≠ .
 example : (histCase 3 [.add 3, .add 3, .add 3, .add 3, .setSize 10, .setSize 3, .get]).Safe := by decide
 
 example : histValid 3 [.add 3, .setSize 2, .get, .dec, .inc, .clear, .moveKeepNew] := by decide
+
+/-- hand-over between buffers of DIFFERENT state sizes: after `*this = std::move(other)` the buffer has the other's state
+    size, window and content, and is used with vectors of that size -/
+example : histValid 2 [.add 2, .add 2, .moveAssignFrom 4 3 0, .get, .add 4, .get, .moveAssignInto 7 1 2, .add 4, .get] ∧
+    (histCase 2 [.add 2, .add 2, .moveAssignFrom 4 3 0, .get, .add 4, .get, .moveAssignInto 7 1 2, .add 4, .get]).Safe := by decide
+
+/-- seed C14-r3-2 as the model sees it: a move assignment that does NOT hand over `state_size_` leaves vectors of 4 entries
+    in a buffer that builds `getHistoryBuffer()` with 2 rows -/
+theorem unsafe_history_move_assign_without_state_size_counterexample :
+    ¬ (histGet ⟨5, 2, [4, 4, 4]⟩).Safe ∧ (histGet ⟨5, 4, [4, 4, 4]⟩).Safe := by decide
 
 /-! ## InitSurveillanceAreaGrid -/
 
